@@ -190,6 +190,10 @@ func (q *queryChecker) Check(qu Query) {
 				expr = expr && addr20(b.Provider, b.Owner)
 			}
 		}
+		if qu.Addr != "" && len(qu.Addr) != 40 {
+			expr = false // the legacy transport carries the owner as bech32 text: 20 bytes only
+			q.cls["bindings_of_a_cut_owner"]++
+		}
 		res, err := k.Bindings(ctx, &types.QueryBindingsRequest{ServiceName: qu.Service, Owner: addr(qu.Addr)})
 		if err != nil {
 			q.fail(qu.Kind, "gRPC bindings %+v: %v", qu, err)
@@ -607,6 +611,14 @@ func GenQueries(t *rapid.T, g *GenState) []Query {
 				q.Service = pick(t, "q_svc", services)
 				if pct(t, "q_owner", 50) {
 					q.Addr = pick(t, "q_owner_addr", Signers)
+				}
+				if bl := g.bindingsList(); len(bl) > 0 && pct(t, "q_owner_cut", 8) {
+					// the owner cut short by its last byte and that byte moved to the front of the service name:
+					// another (owner, service) pair, whose bytes run together to the same string
+					b := pick(t, "q_owner_cut_binding", bl)
+					if o := []byte(b.Owner); len(o) == 20 && (o[19] == 0 || (o[19] >= 'a' && o[19] <= 'z')) {
+						q.Addr, q.Service = hx(o[:19]), string(o[19:])+b.ServiceName
+					}
 				}
 			case "withdraw_address":
 				q.Addr = pick(t, "q_owner_addr", Signers)
